@@ -275,6 +275,17 @@ func c05(r *core.Report) {
 	// ---- C05-APP-FROM-PROMOTED
 	r.Rule("C05-APP-FROM-PROMOTED", "application data is handed out only after the readiness re-check of the session it came from", 1)
 	ruleAppAfterRecheck(r, c, "C05-APP-FROM-PROMOTED")
+
+	// ---- C05-APP-READY (typestate): the re-check above judges the key only on the not-ready -> ready
+	// edge, so a session must be ready whenever it returns application data
+	r.Rule("C05-APP-READY", "every session transition that returns application data ends in a ready state", 2)
+	if ts := buildTypestate(r); ts != nil {
+		if ts.err != nil {
+			r.Fail("typestate extraction failed: %v", ts.err)
+		} else {
+			ts.checkAppImpliesReady("C05-APP-READY")
+		}
+	}
 }
 
 func isChannelField(c *chanSlots, f *types.Var) bool {
